@@ -24,7 +24,7 @@ func init() {
 			{ID: "C02-R1", Title: "no operand-driven frame selection for capture", Floor: 1, Run: c02r1},
 			{ID: "C02-R2", Title: "cells point into per-activation storage and are used through Value/Set", Floor: 4, Run: c02r2},
 			{ID: "C02-R3", Title: "name resolution is nearest-scope-first", Floor: 1, Run: c02r3},
-			{ID: "C02-R4", Title: "variable instructions carry an operand of their own namespace", Floor: 30, Run: c02r4},
+			{ID: "C02-R4", Title: "variable instructions carry an operand of their own namespace", Floor: 6, Run: c02r4},
 			{ID: "C02-R5", Title: "initializer compiled before the declared name is inserted", Floor: 2, Run: c02r5},
 			{ID: "C02-R6", Title: "frame slots are unique per function", Floor: 2, Run: c02r6},
 			{ID: "C02-R7", Title: "the dispatch loop keeps no stale copy of the frame's locals", Floor: 1, Run: dispatchUsesLiveFrameState},
@@ -317,6 +317,7 @@ func c02r4(c *core.Ctx) {
 	want := map[string]string{"LoadFree": "free", "StoreFree": "free", "LoadFast": "sym", "StoreFast": "sym", "LoadGlobal": "sym", "StoreGlobal": "sym"}
 	scopeOf := map[string]string{"LoadFree": "Free", "StoreFree": "Free", "LoadFast": "Local", "StoreFast": "Local", "LoadGlobal": "Global", "StoreGlobal": "Global"}
 	n := 0
+	perOp := map[string]int{}
 	funcBodies(cp, func(fn *types.Func, fd *ast.FuncDecl) {
 		assigns := localAssignments(info, fd.Body)
 		var kind func(e ast.Expr, depth int) (free, sym bool)
@@ -370,6 +371,7 @@ func c02r4(c *core.Ctx) {
 			}
 			n++
 			idx[k.Name()]++
+			perOp[k.Name()]++
 			free, sym := kind(ce.Args[1], 0)
 			ok2 := (wantK == "free" && free && !sym) || (wantK == "sym" && sym && !free)
 			// scope switch agreement
@@ -399,6 +401,13 @@ func c02r4(c *core.Ctx) {
 			return true
 		})
 	})
+	// vacuity: every variable instruction is emitted somewhere (the number of
+	// sites is not fixed: seven copies of one scope switch may become one helper)
+	for name := range want {
+		if perOp[name] == 0 {
+			core.Undecidedf("no site emits %s", name)
+		}
+	}
 	c.Stat("variable_instruction_sites", n)
 }
 
